@@ -203,6 +203,11 @@ def res_cli(run, case, rng, work):
             stored.append(C01.read_result_zip(p))
     if not files:
         return
+    if rng.random() < .12:
+        # the identical path listed more than once (e.g. from a shell glob plus an explicit name)
+        k = int(rng.integers(len(files)))
+        files.append(files[k])
+        stored.append(stored[k])
     n = len(files)
     merge = merge and n > 1
     for f, z in zip(files, stored):
@@ -216,6 +221,10 @@ def res_cli(run, case, rng, work):
         argv.append("--ignore_title")
     if use_filenames:
         labels = [os.path.basename(f) for f in files]
+    # options that must not influence the table
+    for extra in (["-v"], ["--silent"], ["--debug"], ["--use_rel_time"], ["--plot_markers"], ["--logfile", "log.txt"]):
+        if rng.random() < .08:
+            argv += extra
     res = cli.run_cli("res", argv, cwd=work)
     got = C01.outcome_class(res)
     run.seen(case, core.digest([z["stats"] for z in stored], argv), nontrivial=n > 1,
